@@ -166,6 +166,7 @@ func (app *Application) elect(ctx *api.Context, epoch beacon.EpochTime, reward b
 	if err != nil {
 		return fmt.Errorf("cometbft/scheduler: before schedule notification failed: %w", err)
 	}
+	api.VerifTap("elect.pre", AppName, ctx, epoch)
 
 	state := schedulerState.NewMutableState(ctx.State())
 	schedulerParameters, err := state.ConsensusParameters(ctx)
@@ -286,6 +287,7 @@ func (app *Application) elect(ctx *api.Context, epoch beacon.EpochTime, reward b
 	); err != nil {
 		return fmt.Errorf("cometbft/scheduler: couldn't elect committees: %w", err)
 	}
+	api.VerifTap("elect.post", AppName, ctx, epoch)
 
 	if !reward {
 		return nil
